@@ -45,7 +45,7 @@ CLAIMED["C04"] = {
 CLAIMED["C15"] = {
     "text": "Post-decode consumers of untrusted fields and the HTTP state machines under a misbehaving server are run on unconstrained symbolic values; Kani turns every reachable panic, arithmetic overflow, out-of-bounds index and unwrap into a solver-decided check, and a 'never an empty chunk' assertion stands for bounded work. Harnesses go through the reader's own validation (chunker_config_from_params, source_order_is_valid): whatever it accepts must run. Rare field values (window 0, bits 33, index == len, size 0) are exactly what a solver finds and sampling does not -- eight defects were found this way and fixed.",
     "design_ref": "DESIGN.md section 4 (C15) and section 5",
-    "note": "Reduced scope: protobuf decoding and Blake2 are environment (try_init runs around them: pre-header arithmetic for EVERY dictionary size -- found F14 -- and everything done with the decoded dictionary), the readers' allocation of dictionary-size bytes, decompressors and info printing are out of reach. Dev-profile semantics (overflow checks on).",
+    "note": "Reduced scope: protobuf decoding and Blake2 are environment; try_init is executed up to its second read (pre-header arithmetic for EVERY dictionary size -- found F14); the harness that ran everything try_init does with the decoded dictionary found F15 and stopped finishing after the fix (not registered); the 'Average chunk size' expression of `bita info` is extracted from the CLI source (found F16); the readers' allocation of dictionary-size bytes and the decompressors are out of reach. Dev-profile semantics (overflow checks on).",
     "technique": TECH}
 CLAIMED["C06"] = {
     "text": "chunk_stream step: for every subset of the clone index and every descriptor layout (any offsets/order/gaps) the reader is asked for exactly the descriptors still wanted, each once, in descriptor order, with (offset,size) verbatim, and nothing else; together with the lookup/remove step (a written chunk's entry is gone) a chunk found in a seed is never requested.",
@@ -53,9 +53,9 @@ CLAIMED["C06"] = {
     "note": "Reduced scope: 2 descriptors; header-region reads, in-place scan, block devices and the CLI flow are not executable here. Model map, recording reader mock.",
     "technique": TECH}
 CLAIMED["C17"] = {
-    "text": "Post-decode reader: both magics and nothing else are accepted (all byte strings <= 16 bytes); descriptor offsets/sizes are passed to the readers verbatim in any order with gaps; raw-vs-compressed rule per chunk; the local reader seeks to each chunk's own offset and the HTTP reader opens a new range request whenever the next chunk is not adjacent (steps shared with C07/C08).",
+    "text": "Post-decode reader: both magics and nothing else are accepted (all byte strings <= 16 bytes); descriptor offsets/sizes are passed to the readers verbatim in any order with gaps, and both readers take the list as given (entry harnesses, incl. concrete descending layouts); raw-vs-compressed rule per chunk; the local reader seeks to each chunk's own offset and the HTTP reader opens a new range request whenever the next chunk is not adjacent (steps shared with C07/C08).",
     "design_ref": "DESIGN.md section 4 (C06/C17)",
-    "note": "Reduced scope: protobuf decoding (unknown fields) and the header checksum computation are environment in the try_init harness (descriptors in dictionary order, absolute offset = stored chunk-data offset + relative offset, rebuild order verbatim); real decompression is out of reach.",
+    "note": "Reduced scope: protobuf decoding (unknown fields), Archive::try_init's post-decode part (the harness for it is not registered: it no longer finishes) and real decompression are out of reach; the readers' ENTRY points are executed with chunk lists in any order (the list is taken as given).",
     "technique": TECH}
 CLAIMED["C02"] = {
     "text": "Truncated-hash key consistency decided at full width (all 64-byte digests and keys, all lengths): a lookup hits exactly when the truncated hashes agree; index lookup/remove step through the real ChunkIndex; a hit writes the fed chunk's own bytes at the entry's offset, a miss writes nothing -- a seed can change whether bytes come from the archive, never which bytes (given collision freeness).",
@@ -70,7 +70,7 @@ CLAIMED["C13"] = {
 CLAIMED["C05"] = {
     "text": "Fault step: the k-th seek or write fails, or the k-th write accepts only a prefix (k, prefix symbolic) => write_offset returns Err, never Ok with fewer bytes than the chunk on the output; bytes that did land are contiguous from the destination. All fault points inside the bound are covered by one query.",
     "design_ref": "DESIGN.md section 4 (C02/C13/C05)",
-    "note": "Reduced scope: only 'a run whose write failed or was cut short never reports success' -- at the write step, through feed (an error of the write loop is handed on, c13_feed_glue_*_fail) and through the in-place executor on small plans (c03_exec_*_faults); the 're-running completes' half is rescan+reorder+fetch and is not executable.",
+    "note": "Reduced scope: only 'a run whose write failed or was cut short never reports success' -- at the write step, through feed (an error of the write loop is handed on: c13_feed_glue_*_fail, c13_feed_unit_*_faults); the in-place executor's one-operation fault scenario runs under C03 (c03_exec_min_faults); the 're-running completes' half is rescan+reorder+fetch and is not executable.",
     "technique": TECH}
 CLAIMED["C03"] = {
     "text": "Two components of the in-place update, not the whole: (1) the overlap query the planner uses to find the chunks a move would overwrite is EXACT for every layout of 3 disjoint chunks and every destination range (full 2^40 offsets) -- no reusable chunk a move destroys can go unnoticed; (2) the executor reorder_in_place, run as a whole on one-operation plans (one move; one chunk to two destinations; a read or write fault at a symbolic call) over a file whose every byte is symbolic: every moved chunk's ORIGINAL bytes end at all of its destinations, nothing else is written, moved chunks leave the clone index, a failed read or write fails the run.",
